@@ -169,6 +169,21 @@ func (r *SortReg) typeIDTable() string {
 	return strings.Join(ks, ", ")
 }
 
+// constArr: an array that maps every index to val. cvc5 only accepts constant-array literals whose element is a
+// value, so defaults that mention the uninterpreted constant emptyStr become a named array with an axiom.
+func (r *SortReg) constArr(ks, vs Sort, val string) string {
+	if !strings.Contains(val, "emptyStr") && !strings.Contains(val, "zarr_") {
+		return fmt.Sprintf("((as const (Array %s %s)) %s)", ks, vs, val)
+	}
+	name := "zarr_" + mangle(ks) + "_" + mangle(vs)
+	if !r.known[name] {
+		r.known[name] = true
+		r.decls = append(r.decls, fmt.Sprintf("(declare-const %s (Array %s %s))", name, ks, vs),
+			fmt.Sprintf("(assert (forall ((zi %s)) (! (= (select %s zi) %s) :pattern ((select %s zi)))))", ks, name, val, name))
+	}
+	return name
+}
+
 func (r *SortReg) zero(t types.Type) string {
 	s := r.sortOf(t)
 	return r.zeroOfSort(s, t)
@@ -192,7 +207,7 @@ func (r *SortReg) zeroOfSort(s Sort, t types.Type) string {
 		return "(_ +zero 11 53)"
 	case strings.HasPrefix(s, "Slice_"):
 		et := r.elemOf[s]
-		return fmt.Sprintf("(mk_%s true 0 ((as const (Array Int %s)) %s))", s, r.sortOf(et), r.zero(et))
+		return fmt.Sprintf("(mk_%s true 0 %s)", s, r.constArr("Int", r.sortOf(et), r.zero(et)))
 	case strings.HasPrefix(s, "S_"), strings.HasPrefix(s, "Sbv_"):
 		u := r.structs[s]
 		if u.NumFields() == 0 {
@@ -205,7 +220,7 @@ func (r *SortReg) zeroOfSort(s Sort, t types.Type) string {
 		return sx("mk_"+s, fs...)
 	case strings.HasPrefix(s, "(Array Int "):
 		if a, ok := t.Underlying().(*types.Array); ok {
-			return fmt.Sprintf("((as const %s) %s)", s, r.zero(a.Elem()))
+			return r.constArr("Int", r.sortOf(a.Elem()), r.zero(a.Elem()))
 		}
 	}
 	return "0"
